@@ -55,7 +55,6 @@ Lemma node_step_lin_recipes fo i k st pc st1 : lin_ok fo i = true -> cont k ->
     end.
 Proof.
   intros Hok Hk H. rewrite node_step_eq in H.
-  destruct (look_lin fo i k Hok Hk) as (io & ic & Eio & Eic & Elt). rewrite Eio, Eic in H.
   destruct (opened st pc) as [[[br ba] rc]|]; cbn [bind] in H; [|discriminate].
   destruct (ring_scan (s_current st) _ 0 (clean_st (s_cycle st) [])) as [[rs rdx]|]; cbn [bind] in H; [|discriminate].
   destruct (bond_expr _ rdx) as [bo|]; cbn [bind] in H; [|discriminate].
@@ -67,13 +66,15 @@ Proof.
   { destruct br; [|eexists; split; reflexivity]. destruct (rev ba); [cbn [bind] in H; discriminate|]. eexists; split; reflexivity. }
   destruct Hrec as (rc' & Erc & <-). rewrite Erc in H. cbn [bind] in H.
   destruct (add_nodes _ _ _ _ _ _ _ _) as [[[[g cu] pn] pb]|]; cbn [bind] in H; [|discriminate].
-  rewrite Elt in H. destruct (l_close i) as [a'|] eqn:Ecl; cbn [is_some] in H.
+  destruct (l_close i) as [a'|] eqn:Ecl.
   - destruct (rev ba) as [|top stk] eqn:Erev.
-    + unfold close_branch in H. cbn [s_branch_anchor] in H. rewrite Erev in H. discriminate.
+    + rewrite lin_tail_split, Ecl in H. cbn [close_str app] in H.
+      rewrite (close_all_first _ _ _ (lin_prefix_inner fo i Hok)) in H.
+      unfold close_branch in H. cbn [s_branch_anchor] in H. rewrite Erev in H. discriminate.
     + assert (Eba : ba = rev (top :: stk)) by (rewrite <- Erev; now rewrite rev_involutive).
-      rewrite (close_lin fo i a' k _ top stk Hok Ecl Hk) in H by exact Eba. injection H as <-.
+      rewrite (close_all_lin_some fo i a' k _ top stk Hok Ecl Hk) in H by exact Eba. injection H as <-.
       exists top, stk. repeat split.
-  - injection H as <-. split; reflexivity.
+  - rewrite (close_all_lin_none fo i k _ Hok Ecl Hk) in H. injection H as <-. split; reflexivity.
 Qed.
 
 (** ** the state of the recipe table relative to the open branches *)
